@@ -234,6 +234,8 @@ def check_roundtrip(case, ctx):
 
 SETTINGS = [(frt, tz) for frt in (None, "UTC", "Europe/Amsterdam", "NONE", "Not/AZone")
             for tz in ("UTC", "America/New_York")]
+# values that are not zone names at all (empty, path-like, other case): still only a display matter
+SETTINGS += [(frt, "UTC") for frt in ("", "../UTC", "/etc/localtime", "none", "Europe", "Asia/Kolkata")]
 _REF = {}
 
 
